@@ -167,7 +167,11 @@ impl<T: Copy> ReadStream<T> {
 
     #[must_use]
     pub fn wait_for_read(&self, need: usize) -> bool {
-        self.circ.wait_for_read(need) < need && Arc::strong_count(&self.circ) == 1
+        // Check for the writer being gone *before* looking at the buffer. The
+        // other order can miss data committed just before the writer went
+        // away, and report "never" while enough samples are buffered.
+        let writer_gone = Arc::strong_count(&self.circ) == 1;
+        self.circ.wait_for_read(need) < need && writer_gone
     }
 
     /// Return true if there is nothing more ever to read from the stream.
